@@ -25,10 +25,29 @@ def dictMerge {β : Type} (base upd : List (String × β)) : List (String × β)
 
 def lookup {β : Type} (f : List (String × β)) (k : String) : Option β := (f.find? (fun p => p.1 == k)).map (·.2)
 
-/-- `make_single_release`: `{**dict(date=…), **loc_attrs, **attrs}` with
-`attrs = {**{depth: default}, **implicit, **explicit}` already evaluated to columns -/
-def singleRelease {α : Type} (date : List (Cell α)) (loc depthDefault implicit explicit : Frame α) : Frame α :=
-  dictMerge (dictMerge [("date", date)] loc) (dictMerge (dictMerge depthDefault implicit) explicit)
+/-- where the columns coming with the location (GeoJSON feature properties) go:
+`locFirst` is the code before the `fix:` commit (`{**dict(date=…), **loc_attrs, **attrs}`: properties *before*
+depth), `depthFourth` the current code
+(`{**dict(date=…), longitude, latitude, 'depth': attrs['depth'], **loc_attrs, **attrs}`). -/
+inductive ColOrder where
+  | locFirst | depthFourth
+  deriving Repr, DecidableEq
+
+/-- `make_single_release` with `attrs = {**{depth: default}, **implicit, **explicit}` already evaluated to
+columns.  `get_location` always returns `longitude` and `latitude` (a missing key would be a `KeyError`;
+here it would be dropped) and `attrs` always has `depth`. -/
+def singleRelease {α : Type} (ord : ColOrder) (date : List (Cell α)) (loc depthDefault implicit explicit : Frame α) :
+    Frame α :=
+  let attrs := dictMerge (dictMerge depthDefault implicit) explicit
+  match ord with
+  | .locFirst => dictMerge (dictMerge [("date", date)] loc) attrs
+  | .depthFourth =>
+    let pos := ["longitude", "latitude"].filterMap (fun k => (lookup loc k).map (fun v => (k, v)))
+    let props := loc.filter (fun p => !(p.1 == "longitude" || p.1 == "latitude"))
+    let depth := match lookup attrs "depth" with
+      | some d => [("depth", d)]
+      | none => []
+    dictMerge (dictMerge (("date", date) :: pos ++ depth) props) attrs
 
 /-- every column of a frame has `num` cells (pandas raises otherwise) -/
 def frameOk {α : Type} (f : Frame α) (num : Nat) : Bool := f.all (fun p => p.2.length == num)
